@@ -368,7 +368,8 @@ PROPS["C01"] = dict(
                  "(which of the types {A,B} exist in which scope, depth <= 2 quick / <= 3 thorough) with symbolic payloads. "
                  "All histories that stay within the bound agree with the model by induction over operations (not machine-checked)."),
     verus=[],
-    kani=[dict(files=["contracts/C01/c01.rs", "contracts/C01/c01_multi.rs"], map_shim=True, map_shim_files=REG_FILES, harness_timeout="900s", timeout_s=2700)],
+    kani=[dict(files=["contracts/C01/c01.rs", "contracts/C01/c01_multi.rs"], map_shim=True, map_shim_files=REG_FILES, harness_timeout="900s", timeout_s=2700,
+               thorough_jobs=5)],   # 155 harnesses, several of 6-20 GB each: 16 at a time exhausts the memory (CBMC killed = undecided)
     min_obligations={"quick": 38, "thorough": 38},
     trusted=["std HashMap/HashSet replaced by an association list with the same interface under cfg(kani) (shim/verif_map.rs)",
              "std::cell::RefCell, better_any downcasts: exercised, not specified"],
